@@ -25,7 +25,18 @@ def gen(rng, tier):
             new, placed = _C10._new_frame(rng, fr)
             # unseen levels only in grouping variables g, h (mode silent) so that common terms using them stay legal
             chain.append(new)
-        cases.append({"formula": f, "frame": fr, "na": "drop", "chain": chain, "kind": "random"})
+        kind = "random"
+        if rng.random() < 0.5:
+            # missing values in columns the formula does not use: every observation is retained
+            import re as _re
+            names = set(_re.findall(r"[A-Za-z_][A-Za-z_0-9]*", f))
+            nrows = len(fr["columns"][0]["values"])
+            for col in fr["columns"]:
+                if col["name"] not in names and col["type"] in ("float", "str", "int") and not col.get("dtype"):
+                    for r in rng.sample(range(nrows), rng.randint(1, 3)):
+                        col["values"][r] = None
+            kind = "unused-missing"
+        cases.append({"formula": f, "frame": fr, "na": "drop", "chain": chain, "kind": kind})
     # a level that is literally named 'mean' next to the [mean] column of a full-rank Sum coding
     for _ in range(200 if tier == "thorough" else 20):
         fr = gen_dm.make_frame(rng)
